@@ -237,6 +237,9 @@ void profile_cfg_more(const std::string &prof, uint64_t seed, RunCfg &c, Rng &r)
     c.sock_create_cb = r.chance(0.2) ? 1 : 0; c.sock_config_cb = r.chance(0.2) ? 1 : 0;
     // TCP-only channels with fast open and deferred writes have their own allocation sites
     if (c.flags >= 0 && r.chance(0.3)) { c.flags |= ARES_FLAG_USEVC; c.tfo = r.chance(0.7); c.pending_write_cb = r.chance(0.6); if (r.chance(0.5)) c.flags |= ARES_FLAG_STAYOPEN; }
+    // a share of scenarios puts 13..17 requests in flight at once: the library's hash tables (queries by id, connections by
+    // socket, cache entries) grow at their 13th entry, and growing is a multi-allocation operation of its own
+    if (r.chance(0.08)) { c.knobs["c14_burst"] = 13 + (int64_t)r.below(5); c.use_tokens = 1; if (r.chance(0.5)) c.udp_max_queries = 1; }
   } else if (prof == "C07") {
     c.allow_cancel_in_cb = 0;
     c.beh_w = {45, 4, 2, 0, 3, 0, 5, 35, 4, 1, 1, 0, 1, 0, 0};
@@ -474,7 +477,11 @@ void profile_cfg_more(const std::string &prof, uint64_t seed, RunCfg &c, Rng &r)
 // ---------------------------------------------------------------------------------------------
 bool profile_plan_more(const RunCfg &c, Rng &r, std::vector<Step> &plan) {
   const std::string &p = c.profile;
-  if (p == "C03") { gen(c, r, plan, weights({{S_REQ, 40}, {S_ADV, 45}, {S_CHUNK, 10}, {S_STALL, 1}, {S_FAULT, 2}}), 20, 120); for (auto &s : plan) if (s.k == S_FAULT) { s.a = FC_SEND; s.b = 0; s.c = 2 + 4 * (r.chance(0.5) ? 1 : 0) + 16 * (int64_t)r.below(20); } return true; }
+  if (p == "C03") { gen(c, r, plan, weights({{S_REQ, 40}, {S_ADV, 45}, {S_CHUNK, 10}, {S_STALL, 1}, {S_FAULT, 4}}), 20, 120);
+    // send faults: TCP would-block / partial writes, and UDP would-block (the datagram stays in the library's output buffer, where
+    // the next query may be queued behind it)
+    for (auto &s : plan) if (s.k == S_FAULT) { s.a = FC_SEND; s.b = 0; s.d = 0; if (r.chance(0.5)) s.c = 3; else s.c = 2 + 4 * (r.chance(0.5) ? 1 : 0) + 16 * (int64_t)r.below(20); }
+    return true; }
   if (p == "C06") { gen(c, r, plan, weights({{S_REQ, 22}, {S_ADV, 50}, {S_STALL, 4}, {S_NETOP, 6}, {S_FAULT, 10}, {S_PARTITION, 3}, {S_SETSRV, 3}, {S_REINIT, 1}, {S_CHUNK, 2}}), 20, 120); return true; }
   if (p == "C07") { gen(c, r, plan, weights({{S_REQ, 25}, {S_ADV, 60}, {S_STALL, 8}, {S_NETOP, 4}, {S_PARTITION, 3}, {S_CANCEL, 1}}), 20, 140); return true; }
   if (p == "C17") {
@@ -539,6 +546,15 @@ bool profile_plan_more(const RunCfg &c, Rng &r, std::vector<Step> &plan) {
   if (p == "C14") {
     // short scenarios: every allocation of each is going to be failed in turn
     gen(c, r, plan, weights({{S_REQ, 40}, {S_ADV, 36}, {S_SETSRV, 4}, {S_REINIT, 3}, {S_CANCEL, 3}, {S_DUP, 3}, {S_SAVEOPT, 3}, {S_CSVROUND, 2}, {S_SORTLIST, 2}, {S_LOCAL, 1}, {S_QUERYINFO, 3}}), 3, 12);
+    if (c.knob("c14_burst", 0) > 0) {
+      // burst scenario: N requests back to back, a few loop turns, then more requests while the tables are still large
+      std::vector<Step> b;
+      auto mk = [&](int k) { Step s; s.k = k; s.a = (int64_t)r.below(1000); s.b = (int64_t)r.below(1000); s.c = (int64_t)r.below(1000000); s.d = (int64_t)r.below(1000); return s; };
+      for (int64_t i = 0; i < c.knob("c14_burst"); i++) { Step s = mk(S_REQ); s.d = (s.d / R_NREACT) * R_NREACT + R_NONE; b.push_back(s); }
+      for (int i = 0; i < 2; i++) b.push_back(mk(S_ADV));
+      for (int i = 0; i < 3; i++) { Step s = mk(S_REQ); s.d = (s.d / R_NREACT) * R_NREACT + R_NONE; b.push_back(s); b.push_back(mk(S_ADV)); }
+      plan = b;
+    }
     for (auto &s : plan) if (s.k == S_ADV) { s.a = 0; s.b = 0; }
     return true;
   }
@@ -644,6 +660,9 @@ static void c03_tx(Run &run, Tx &t) {
     run.violate("C03", "malformed_frame_on_wire", std::string(t.tcp ? "tcp" : "udp") + " frame of " + std::to_string(t.wire.size()) + " bytes at stream offset " + std::to_string(t.stream_off) + " does not decode: " + t.decode_err);
     return;
   }
+  // a frame is exactly one message: bytes after its end do not serialise back to the same bytes (and on UDP they are whatever
+  // else was queued in the library's output buffer)
+  if (t.trailing) { run.violate("C03", "bytes_after_message_in_frame", std::string(t.tcp ? "tcp" : "udp") + " frame of " + std::to_string(t.wire.size()) + " bytes for " + t.qname_lc + ": the message ends " + std::to_string(t.trailing) + " bytes before the frame does"); return; }
   if (t.token < 0 || t.token >= (int)run.reqs.size()) return;
   const Req &r = run.reqs[(size_t)t.token];
   const Msg &m = t.msg;
@@ -1024,7 +1043,16 @@ static void c09_end(Run &run) {
   for (size_t i = 0; i < run.srv_events.size(); i++) evs.push_back({run.srv_events[i].seq, 0, (int)i});
   for (size_t i = 0; i < W.txs.size(); i++) evs.push_back({W.txs[i].seq, 1, (int)i});
   for (size_t i = 0; i < run.active_hist.size(); i++) evs.push_back({run.active_hist[i].seq, 2, (int)i});
+  // kind 3 = a hard receive error the kernel model handed to the library (ICMP unreachable, reset, ...): a failure of the server
+  // behind that socket which the oracle knows of independently of the library's own report
+  for (size_t i = 0; i < W.calls.size(); i++) {
+    const CallRec &cr = W.calls[i];
+    if (cr.call != C_RECVFROM || cr.res != -1) continue;
+    if (cr.err != ECONNREFUSED && cr.err != ECONNRESET && cr.err != EHOSTUNREACH && cr.err != ENETUNREACH && cr.err != ETIMEDOUT && cr.err != ECONNABORTED) continue;
+    evs.push_back({cr.seq, 3, (int)i});
+  }
   std::stable_sort(evs.begin(), evs.end(), [](const Ev &a, const Ev &b) { return a.seq < b.seq; });
+  std::vector<long> uncounted(ns, 0);   // receive errors seen on a server's socket that the library has not yet reported as a failure
   std::vector<long> fails(ns, 0);
   std::vector<int64_t> last_fail(ns, -1);
   std::vector<int> active = run.active_hist.empty() ? std::vector<int>() : run.active_hist[0].list;
@@ -1066,6 +1094,14 @@ static void c09_end(Run &run) {
       int si = c09_server_of_string(run, se.server);
       if (si < 0) { run.violate("C09", "unknown_server_in_callback", "server-state callback names '" + se.server + "', which is not a configured server"); return; }
       if (se.ok) fails[(size_t)si] = 0; else { fails[(size_t)si]++; last_fail[(size_t)si] = se.t; }
+      uncounted[(size_t)si] = 0;
+      continue;
+    }
+    if (e.kind == 3) {
+      const CallRec &cr = W.calls[(size_t)e.idx];
+      int si = -1; bool udp = false;
+      for (size_t k = W.txs.size(); k-- > 0;) { const Tx &p = W.txs[k]; if (p.fd == cr.fd && p.seq < cr.seq) { si = p.server; udp = !p.tcp; break; } }
+      if (si >= 0 && udp && std::find(active.begin(), active.end(), si) != active.end() && cr.seq > edit_end) { uncounted[(size_t)si] = 1; run.note("receive_error_with_server_known"); }
       continue;
     }
     const Tx &t = W.txs[(size_t)e.idx];
@@ -1080,11 +1116,14 @@ static void c09_end(Run &run) {
     std::string gq = g + "|" + std::to_string(t.msg.id);
     bool new_qid = group_qids[g].insert((int)t.msg.id).second;
     int nth = ++qid_tx_count[gq];
+    // (a receive error just seen on a server's socket counts against it from that instant: "each failure ... demotes it")
+    auto eff = [&](int a) { return fails[(size_t)a] + uncounted[(size_t)a]; };
     long mn = -1;
-    for (int a : active) if (mn < 0 || fails[(size_t)a] < mn) mn = fails[(size_t)a];
-    bool minimal = fails[(size_t)t.server] == mn;
+    for (int a : active) if (mn < 0 || eff(a) < mn) mn = eff(a);
+    bool minimal = eff(t.server) == mn;
     int first_min = -1;
-    for (int a : active) if (fails[(size_t)a] == mn) { first_min = a; break; }
+    for (int a : active) if (eff(a) == mn) { first_min = a; break; }
+    if (uncounted[(size_t)t.server]) run.note("selection_while_failure_unreported");
     run.note("selection_checked");
     if (mn >= 0 && fails[(size_t)t.server] > 0) run.note("selection_with_failed_servers");
     // directed resend after an EDNS downgrade goes back to the same server
@@ -1112,7 +1151,8 @@ static void c09_end(Run &run) {
     if (!new_qid || nth != 1) why = "it is a retransmission of an existing query";
     else if (!other_qid_same_call && !(t.token >= 0 && t.token < (int)run.reqs.size() && run.reqs[(size_t)t.token].t_submit <= t.t)) why = "no user request with that question had been made";   // the user's own frame may still be queued on a connecting TCP socket; a probe copy that is itself re-sent (TC upgrade) may spawn the next probe after the user's request completed
     else if (chance == 0) why = "probing is disabled (retry chance 0)";
-    else if (fails[(size_t)t.server] == 0) why = "the target has no failures";
+    else if (eff(t.server) == 0) why = "the target has no failures";
+    else if (uncounted[(size_t)t.server]) why = "a receive error had just been returned on that server's socket and the query was re-sent before the failure was counted";
     else if (last_fail[(size_t)t.server] >= 0 && t.t < last_fail[(size_t)t.server] + delay_ms * 1000) why = "the retry delay (" + std::to_string(delay_ms) + " ms) since its last failure has not passed";
     if (why.empty()) { probe_target[gq] = t.server; run.note("probe_sent"); continue; }
     std::string tab; for (int a : active) tab += " s" + std::to_string(a) + "=" + std::to_string(fails[(size_t)a]);
